@@ -605,3 +605,32 @@ def _brief(p):
                                                                            v="" if r["ver"] else " unversioned")
             if r["disk"] else ("missing" if r["ver"] else "absent") for f, r in p["files"].items()} | (
         {"extra": p["extra"]} if p["extra"] else {})
+
+
+def replay(ctx, rep):
+    """./check C15 --replay <file>: run the recorded shelve / unshelve case again on the current tree."""
+    import logging
+    env.init()
+    logging.getLogger("brz").setLevel(logging.CRITICAL)
+    row = rep["replay"]
+    if "c" not in row:
+        print("shelf-manager path: %s" % [a for a, _ in row["calls"]])
+        return
+    from breezy.workingtree import WorkingTree
+    D, S = atoms_of(row["c"]["D"]), atoms_of(row["c"]["S"])
+    p = os.path.join(ctx.tmp("replay"), "w")
+    build_base(p)
+    apply_atoms(WorkingTree.open(p), D)
+    print("pending %s, shelving %s via %s" % (D, S, row["mode"]))
+    print("before        %s" % _brief(abstract(project(p))))
+    if row["mode"] == "ui":
+        shelve_ui(p, set(D), set(S), "case")
+    else:
+        from vf import table as _t
+        print("(lib mode needs the model's expected lines; replaying through shelf_ui instead)")
+        shelve_ui(p, set(D), set(S), "case")
+    print("after shelve  %s" % _brief(abstract(project(p))))
+    if shelf_ids(p):
+        unshelve(p, "ui")
+        print("after unshelve %s" % _brief(abstract(project(p))))
+    print("recorded signature: %s" % rep["signature"])
